@@ -20,7 +20,8 @@ const IDLE_BASE: u64 = 1_000_000;
 
 #[derive(Clone, Debug)]
 pub enum SrcSpec {
-    Comp { lc: bool, subs: Vec<(u64, u8, u8)> },
+    /// tdl: the composite also has a Timer as its last sub-source (deadline code, -1 = none armed)
+    Comp { lc: bool, subs: Vec<(u64, u8, u8)>, tdl: Option<i64> },
     Ping { fd: u64 },
     Timer { dl: i64 },
     Chan { c: u64, #[allow(dead_code)] fd: u64 },
@@ -101,7 +102,16 @@ pub fn parse_action(ws: &[&str]) -> Option<Action> {
                     subs.push((n(ch[0])?, n(ch[1])? as u8, n(ch[2])? as u8));
                 }
             }
-            Action::Insert(n(h)?, SrcSpec::Comp { lc: *lc == "1", subs })
+            Action::Insert(n(h)?, SrcSpec::Comp { lc: *lc == "1", subs, tdl: None })
+        }
+        ["insert", h, "compt", lc, dl, _n, rest @ ..] => {
+            let mut subs = vec![];
+            for ch in rest.chunks(3) {
+                if ch.len() == 3 {
+                    subs.push((n(ch[0])?, n(ch[1])? as u8, n(ch[2])? as u8));
+                }
+            }
+            Action::Insert(n(h)?, SrcSpec::Comp { lc: *lc == "1", subs, tdl: Some(z(dl)?) })
         }
         ["insert", h, "ping", fd] => Action::Insert(n(h)?, SrcSpec::Ping { fd: n(fd)? }),
         ["insert", h, "timer", dl] => Action::Insert(n(h)?, SrcSpec::Timer { dl: z(dl)? }),
@@ -228,13 +238,16 @@ struct Comp<const LC: bool> {
     h: u64,
     own: Option<Token>,
     subs: Vec<Generic<SharedFd>>,
+    tmr: Option<Timer>,
     w: std::rc::Weak<World>,
 }
 
 impl<const LC: bool> EventSource for Comp<LC> {
-    type Event = (usize, Readiness);
+    // (sub-source index, readiness, deadline for an event of the Timer sub-source)
+    type Event = (usize, Readiness, Option<Instant>);
     type Metadata = ();
-    type Ret = std::io::Result<PostAction>;
+    // the post action and, for the Timer sub-source, the scripted TimeoutAction (code, deadline)
+    type Ret = std::io::Result<(PostAction, u64, i64)>;
     type Error = std::io::Error;
 
     fn process_events<F>(&mut self, readiness: Readiness, token: Token, mut callback: F) -> Result<PostAction, Self::Error>
@@ -242,17 +255,33 @@ impl<const LC: bool> EventSource for Comp<LC> {
         F: FnMut(Self::Event, &mut Self::Metadata) -> Self::Ret,
     {
         if self.own == Some(token) {
-            return callback((0, readiness), &mut ());
+            return callback((0, readiness, None), &mut ()).map(|r| r.0);
         }
         let mut out: Option<PostAction> = None;
         for (j, sub) in self.subs.iter_mut().enumerate() {
             let mut fired = false;
             let r = sub.process_events(readiness, token, |rd, _| {
                 fired = true;
-                callback((j + 1, rd), &mut ())
+                callback((j + 1, rd, None), &mut ()).map(|r| r.0)
             })?;
             if fired && out.is_none() {
                 out = Some(r);
+            }
+        }
+        // every event is shown to every sub-source, each of which ignores foreign tokens; what the Timer answers is not
+        // passed on (the composite stays as it is)
+        {
+            let nsub = self.subs.len() + 1;
+            let w = self.w.upgrade();
+            if let Some(t) = self.tmr.as_mut() {
+                let _ = t.process_events(readiness, token, |dl, _| match callback((nsub, readiness, Some(dl)), &mut ()) {
+                    Ok((_, 0, _)) => TimeoutAction::Drop,
+                    Ok((_, 1, arg)) => match &w {
+                        Some(w) => TimeoutAction::ToInstant(w.instant(arg)),
+                        None => TimeoutAction::Drop,
+                    },
+                    _ => TimeoutAction::ToDuration(Duration::MAX),
+                })?;
             }
         }
         Ok(out.unwrap_or(PostAction::Continue))
@@ -267,6 +296,11 @@ impl<const LC: bool> EventSource for Comp<LC> {
                 break;
             }
         }
+        if r.is_ok() {
+            if let Some(t) = self.tmr.as_mut() {
+                r = t.register(poll, tf);
+            }
+        }
         self.regop(0, r.is_ok());
         r
     }
@@ -279,6 +313,11 @@ impl<const LC: bool> EventSource for Comp<LC> {
                 break;
             }
         }
+        if r.is_ok() {
+            if let Some(t) = self.tmr.as_mut() {
+                r = t.reregister(poll, tf);
+            }
+        }
         self.regop(1, r.is_ok());
         r
     }
@@ -289,6 +328,11 @@ impl<const LC: bool> EventSource for Comp<LC> {
             r = s.unregister(poll);
             if r.is_err() {
                 break;
+            }
+        }
+        if r.is_ok() {
+            if let Some(t) = self.tmr.as_mut() {
+                r = t.unregister(poll);
             }
         }
         self.regop(2, r.is_ok());
@@ -482,22 +526,32 @@ fn do_insert(w: &Rc<World>, h: u64, spec: &SrcSpec) {
     let guard = DropGuard { h, w: weak.clone() };
     let res: calloop::Result<RegistrationToken>;
     match spec {
-        SrcSpec::Comp { lc, subs } => {
+        SrcSpec::Comp { lc, subs, tdl } => {
             let gens: Vec<Generic<SharedFd>> = subs
                 .iter()
                 .map(|(fd, it, md)| Generic::new(SharedFd(w.fd(*fd)), interest(*it), mode(*md)))
                 .collect();
             let wk = weak.clone();
-            let cb = move |(sub, rd): (usize, Readiness), _: &mut (), _: &mut ()| -> std::io::Result<PostAction> {
+            let mk_timer = |w: &Rc<World>| {
+                tdl.map(|dl| if dl < 0 { Timer::from_duration(Duration::MAX) } else { Timer::from_deadline(w.instant(dl)) })
+            };
+            let cb = move |(sub, rd, dl): (usize, Readiness, Option<Instant>), _: &mut (), _: &mut ()| -> std::io::Result<(PostAction, u64, i64)> {
                 let _g = &guard;
                 let w = match wk.upgrade() {
                     Some(w) => w,
-                    None => return Ok(PostAction::Continue),
+                    None => return Ok((PostAction::Continue, 0, 0)),
                 };
-                w.log(format!("2 {} {} {}", h, sub, rd_code(rd)));
+                match dl {
+                    Some(dl) => w.log(format!("2 {} {} {}", h, sub, w.dl_code(dl))),
+                    None => w.log(format!("2 {} {} {}", h, sub, rd_code(rd))),
+                }
                 let sc = w.next_script(h);
                 run_actions(&w, &sc.acts);
-                pa(sc.ret)
+                if dl.is_some() {
+                    Ok((PostAction::Continue, sc.ret, sc.arg))
+                } else {
+                    pa(sc.ret).map(|p| (p, 0, 0))
+                }
             };
             if *lc {
                 let d = Dispatcher::new(
@@ -505,6 +559,7 @@ fn do_insert(w: &Rc<World>, h: u64, spec: &SrcSpec) {
                         h,
                         own: None,
                         subs: gens,
+                        tmr: mk_timer(w),
                         w: weak.clone(),
                     },
                     cb,
@@ -517,6 +572,7 @@ fn do_insert(w: &Rc<World>, h: u64, spec: &SrcSpec) {
                         h,
                         own: None,
                         subs: gens,
+                        tmr: mk_timer(w),
                         w: weak.clone(),
                     },
                     cb,
@@ -663,15 +719,36 @@ fn exec_action(w: &Rc<World>, a: &Action) {
         Action::SetDl(h, dl) => {
             let d = match w.inner.borrow().disps.get(h) {
                 Some(Disp::Timer(d)) => Some(Ok(d.clone())),
-                Some(_) => Some(Err(())),
+                Some(Disp::Comp0(_)) | Some(Disp::Comp1(_)) => Some(Err(true)),
+                Some(_) => Some(Err(false)),
                 None => None,
             };
+            let comp_code = |has: bool| if has { 0 } else { 3 };
             let code = match d {
                 Some(Ok(d)) => {
                     d.as_source_mut().set_deadline(w.instant(*dl));
                     0
                 }
-                Some(Err(())) => 3,
+                Some(Err(true)) => {
+                    // the Timer sub-source of a composite
+                    let c0 = match w.inner.borrow().disps.get(h) {
+                        Some(Disp::Comp0(d)) => Some(d.clone()),
+                        _ => None,
+                    };
+                    let c1 = match w.inner.borrow().disps.get(h) {
+                        Some(Disp::Comp1(d)) => Some(d.clone()),
+                        _ => None,
+                    };
+                    let at = w.instant(*dl);
+                    if let Some(d) = c0 {
+                        comp_code(d.as_source_mut().tmr.as_mut().map(|t| t.set_deadline(at)).is_some())
+                    } else if let Some(d) = c1 {
+                        comp_code(d.as_source_mut().tmr.as_mut().map(|t| t.set_deadline(at)).is_some())
+                    } else {
+                        3
+                    }
+                }
+                Some(Err(false)) => 3,
                 None => 1,
             };
             w.log(format!("1 7 {} {}", h, code));
